@@ -60,6 +60,17 @@ fn case_dt(day: i64, nod: u64, prev: i32, o: i32, partner: (i64, u64), deep: boo
                 if *fm != want {
                     acc.violation("DateTime::format after set_offset", &format!("format-{}", oclass(o)), case(), want, fm.clone());
                 }
+                // every symbol also on its own (a formatter may treat a pattern differently depending on which fields it contains)
+                let y = x.set_offset(Offset::Fixed(o));
+                for sym in ["G", "y", "q", "M", "w", "d", "D", "e", "a", "b", "h", "H", "K", "k", "m", "s", "n", "x", "qqq HH:mm", "HH:mm q"] {
+                    if let Some(w) = render(Kind::DateTime, sym, local, o) {
+                        acc.transitions += 1;
+                        let g = call(|| y.format(sym));
+                        if g != Out::Val(w.clone()) {
+                            acc.violation("DateTime::format after set_offset", &format!("single-symbol-{}-{}", sym.chars().next().unwrap(), oclass(o)), case(), format!("{:?} -> {}", sym, w), g.show());
+                        }
+                    }
+                }
                 let d = inst - pinst;
                 // months / years: the value under the offset minus the value at offset 0 must be 0
                 let ws = [d / crate::props::c04::UNITS[0].1, d / crate::props::c04::UNITS[1].1, d / crate::props::c04::UNITS[2].1, d / crate::props::c04::UNITS[3].1, d / crate::props::c04::UNITS[4].1, d / crate::props::c04::UNITS[5].1, 0, 0];
